@@ -480,3 +480,13 @@ def maxvol_summary(interp, fn, pos, kw, node):
 
 
 DEFAULT_SUMMARY = {'utils._maxvol': maxvol_summary}
+
+
+# Functions in which min / join atoms are expanded when two dims are compared
+# (poly.definitely_differ): both orderings of their QR / RQ operands are
+# admissible inputs (over-ranked cores are part of the properties' quantifier)
+# and they have no hidden ordering precondition.
+EXPAND_IN = {'transformation.orthogonalize_left',
+             'transformation.orthogonalize_right',
+             'transformation.orthogonalize', 'transformation.truncate',
+             'svd.svd'}
